@@ -244,7 +244,9 @@ def run_enum_part(part, shard, nshards, stats):
 
 
 def write_evidence(prop, tier, seed_value, level, stats, rule, assumptions, wall, violations, exhaustive, extra):
-    os.makedirs(os.path.join(VERIF_DIR, "evidence"), exist_ok=True)
+    # sensitivity runs against a changed scratch copy (tools/mutation_run.py) must not overwrite the evidence of /repo
+    ev_dir = os.environ.get("VERIF_EVIDENCE_DIR") or os.path.join(VERIF_DIR, "evidence")
+    os.makedirs(ev_dir, exist_ok=True)
     samples = stats.samples[:12]
     if not samples:
         samples = [{"note": "no non-trivial case produced"}]
@@ -259,7 +261,7 @@ def write_evidence(prop, tier, seed_value, level, stats, rule, assumptions, wall
     cov.update(extra or {})
     ev = {"property_id": prop, "tier": tier, "seed": int(seed_value), "level": level, "coverage": cov,
           "assumptions": list(assumptions), "wall_s": round(wall, 2), "violations": int(violations)}
-    path = os.path.join(VERIF_DIR, "evidence", f"{prop}.json")
+    path = os.path.join(ev_dir, f"{prop}.json")
     with open(path, "w") as fp:
         json.dump(ev, fp, indent=1, sort_keys=True, default=repr)
     return path
